@@ -67,6 +67,7 @@ def cases(draw, tier):
         cpen = {"penalty": {"alpha": draw(st.sampled_from([0.5, 1.0, 2.0, 0.0])), "betas": [draw(st.sampled_from([0.0, 0.1, 0.5]))] * p}}
         weak = draw(st.sampled_from([0.15, 0.3, 0.6]))
     craft = draw(st.integers(0, 5)) == 0
+    tiny = baselines is None and (coll is None or "Gaussian" not in str(coll)) and draw(st.integers(0, 5)) == 0
     if craft:
         # noise-free bump: one dominant column and one column whose saving is just above the sparse penalty
         L = draw(st.integers(max(msl, 3), max(msl, min(n - 1, 12))))
@@ -90,7 +91,7 @@ def cases(draw, tier):
             # saving's number of parameters, the collective one with the collective saving's)
             "same_callable": draw(st.integers(0, 3)) == 0,
             # integer-valued readings of the size of event counts, handed over as an int64 frame
-            "counts_int64": exact and not craft and weak is None and baselines is None and draw(st.integers(0, 3)) == 0}
+            "counts_int64": exact and not craft and weak is None and baselines is None and not tiny and draw(st.integers(0, 3)) == 0}
     if case["same_callable"]:
         pp = case["params"]["point_penalty"] if isinstance(case["params"]["point_penalty"], dict) else \
             {"penalty": {"alpha": 1.0, "betas": [2.0] * p, "per_param": True}}
@@ -118,6 +119,13 @@ def cases(draw, tier):
             X = [[float(round((v / (1.0 + 0.13 * j) + 10) * 2e7 * (1 + j))) for j, v in enumerate(row)] for row in X]
     if baselines is not None:
         X = [[v + baselines[j] for j, v in enumerate(row)] for row in X]
+    if tiny:
+        # unstandardised low-noise data (sd 2e-5) with the penalty scales set in proportion to the noise variance (x 4e-10): the same
+        # problem in other units - per-component penalties of the order 1e-9 are meaningful thresholds here
+        X = [[v * 2e-5 for v in row] for row in X]
+        for key in ("collective_penalty_scale", "point_penalty_scale"):
+            case["params"][key] = case["params"][key] * 4e-10
+        case["tiny_units"] = True
     case["X"] = X
     return case
 
@@ -228,7 +236,8 @@ def check(case):
         obj = np.cumsum(sv[order] - betas)
         kstar = int(np.argmax(obj)) + 1
         # rounding of a saving computed from prefix sums (error model) - far below any genuine gain
-        tol = 16 * ref.error_bound(n, max(D.max_abs(case["X"]), 1e-300)) + 1e-9 * (1 + float(np.abs(sv).max()))
+        # (relative to the savings and penalties themselves: data may be in tiny units)
+        tol = 16 * ref.error_bound(n, max(D.max_abs(case["X"]), 1e-300)) + 1e-9 * (float(np.abs(sv).max()) + float(np.abs(betas).max()))
         if not got or len(set(got)) != len(got) or any(c < 0 or c >= p for c in got):
             raise Violation("affected columns are empty, repeated or out of range", anomaly=[a, b], icolumns=got)
         # order-free consequences
@@ -259,7 +268,7 @@ def check(case):
     if not np.array_equal(dense.to_numpy(), want) or list(dense.columns) != [f"labels_{c}" for c in df.columns]:
         raise Violation("transform does not mark exactly the affected columns on the anomaly's rows",
                         events=[list(e) for e in events], icolumns=icols, got=dense.to_numpy().tolist())
-    classes = ["baseline_vector_with_exact_zeros"] if isinstance(cs, _BaselineL2Saving) else []
+    classes = (["baseline_vector_with_exact_zeros"] if isinstance(cs, _BaselineL2Saving) else []) + (["tiny_units"] if case.get("tiny_units") else [])
     if events:
         classes.append("has_anomaly")
     if any(b - a == 1 for a, b in events):
